@@ -95,14 +95,13 @@ Unordered(t, clocks) == \E u \in Threads \ {t} : clocks[u] > cur[t][u]
 
 SetErr(e) == err' = IF err = "none" THEN e ELSE err
 
-\* atomic events on the count
-StepRmw(t, ins, rest) ==
+\* atomic events on the count: a read-modify-write that reads the last message and writes nv
+StepRmwTo(t, ins, rest, nv) ==
     LET last == mo[Len(mo)]
         c1   == Tick(t)
         rd   == IF IsAcq(ins.o) THEN Join(c1, last.view) ELSE c1
         base == IF IsRel(ins.o) THEN rd ELSE rel[t]
         view == Join(base, last.view)           \* RMWs continue the release sequence
-        nv   == IF ins.d = 1 THEN last.val + 1 ELSE last.val - 1
     IN  /\ mo' = Append(mo, [val |-> nv, view |-> view, wt |-> t, wc |-> c1[t]])
         /\ cur' = [cur EXCEPT ![t] = rd]
         /\ acq' = [acq EXCEPT ![t] = IF IsAcq(ins.o) THEN @ ELSE Join(@, last.view)]
@@ -110,11 +109,15 @@ StepRmw(t, ins, rest) ==
         /\ cA' = [cA EXCEPT ![t] = c1[t]]
         /\ err' = IF err # "none" THEN err
                   ELSE IF freed THEN "use-after-free: count accessed after deallocation"
-                  ELSE IF last.val = 0 /\ ins.d = 1 THEN "count resurrected from zero"
+                  ELSE IF last.val = 0 /\ nv > 0 THEN "count resurrected from zero"
                   ELSE "none"
         /\ UNCHANGED <<rel, pW, pR>>
         /\ pc' = [pc EXCEPT ![t].prog = rest,
                             ![t].r = IF ins.sets THEN last.val ELSE @]
+
+\* fetch_add(1) / fetch_sub(1)
+StepRmw(t, ins, rest) ==
+    StepRmwTo(t, ins, rest, IF ins.d = 1 THEN mo[Len(mo)].val + 1 ELSE mo[Len(mo)].val - 1)
 
 StepLoad(t, ins, rest, j) ==
     LET m  == mo[j]
